@@ -209,15 +209,23 @@ def run(ctx):
     nrand = 20000 if quick else 300000
     wide = ALPHA + 'cd\t.\r\x0c\xa0x1_ '
     pairs = []
+    # deterministic family: k markers for k = 1..24 (a bound on the number of splits is invisible below it)
+    for k in range(1, 25):
+        for sep in ['...', ' ... ', '...\n']:
+            pairs.append(('a' * (k + 1), 'a' + (sep + 'a') * k))
+            pairs.append(('ab' * (k + 1), 'a' + (sep + 'a') * k))
+            pairs.append((' '.join('x%d' % i for i in range(k + 1)), sep.join('x%d' % i for i in range(k + 1))))
+            pairs.append(('b' * k, sep * k))
     for _ in range(nrand):
-        n = rng.randint(4, 40)
+        many = rng.random() < 0.25
+        n = rng.randint(30, 90) if many else rng.randint(4, 40)
         got = ''.join(rng.choice(wide if rng.random() < 0.3 else ALPHA) for _ in range(n))
         want = got
-        for _k in range(rng.randint(1, 4)):
+        for _k in range(rng.randint(5, 18) if many else rng.randint(1, 4)):
             if not want:
                 break
             a = rng.randint(0, len(want))
-            b = min(len(want), a + rng.randint(0, 6))
+            b = min(len(want), a + rng.randint(0, 3 if many else 6))
             sep = rng.choice(['...', ' ...', '... ', ' ... ', '\n...\n', '...'])
             want = want[:a] + sep + want[b:]
         r = rng.random()
